@@ -1,0 +1,39 @@
+//! Schedule points for external verification harnesses.
+//! Compiled only with the cargo feature `verif-hooks`; never part of `default`.
+//! When no callback is installed every call is a no-op.
+
+use std::sync::{Arc, RwLock};
+
+#[derive(Clone, Copy, Debug, PartialEq, Eq, Hash)]
+pub enum Point {
+    /// a row task of the parallel pivot search starts (row, 0)
+    TaskStart,
+    /// local search chose a candidate; about to take the write lock (row, attempt)
+    BeforeLock,
+    /// the pivot (row, col) was committed under the write lock (row, col)
+    AfterCommit,
+    /// validation under the write lock failed; the task will retry (row, attempt)
+    Retry,
+    /// the row task ends (row, 0)
+    TaskEnd,
+}
+
+pub type Callback = Arc<dyn Fn(Point, usize, usize) + Send + Sync>;
+
+static CALLBACK: RwLock<Option<Callback>> = RwLock::new(None);
+
+pub fn set(f: Callback) {
+    *CALLBACK.write().unwrap() = Some(f);
+}
+
+pub fn clear() {
+    *CALLBACK.write().unwrap() = None;
+}
+
+#[inline]
+pub fn call(p: Point, a: usize, b: usize) {
+    let f = CALLBACK.read().unwrap().clone();
+    if let Some(f) = f {
+        f(p, a, b)
+    }
+}
